@@ -40,6 +40,15 @@ class C19(Prop):
                     if g.strip() != "panics=0":
                         out.append(viol(f"a call panicked while the executable was being swapped for a symlink loop: {op} -> {g}", [cops[0], op], [cgo[0], g]))
                     continue
+                if op.startswith("ex.userpair"):
+                    r = kv(g)
+                    for side in ("a", "b"):
+                        if r.get(side, "").startswith("panic"):
+                            out.append(viol(f"external command call panicked: {op} -> {g}", [cops[0], op], [cgo[0], g]))
+                        elif r.get(side) == "blocked" or r.get(side + "within") == "0":
+                            out.append(viol(f"a call on a cmd fan did not return within its own timeout + margin while another activity was "
+                                            f"using the same fan: {op} -> {g}", [cops[0], op], [cgo[0], g]))
+                    continue
                 if not (op.startswith("ex.run") or op.startswith("ex.user")):
                     continue
                 r = kv(g)
